@@ -1333,6 +1333,11 @@ func (c *ghCtx) forStmt(s *ast.ForStmt, rest func() []string) []string {
 	}
 	fuel := c.spec.fuel[c.loopIdx]
 	c.loopIdx++
+	for _, id := range gfFuelIdent.FindAllString(fuel, -1) { // as in gofn.go: a renamed variable refuses the function
+		if c.used[id] == 0 {
+			gfFail("the fuel expression of loop %d refers to %s, which is not a variable of this function any more", c.loopIdx, id)
+		}
+	}
 	ctl := c.hasExit(s.Body)
 	m := c.newMarker()
 	c.pushTouched()
